@@ -33,7 +33,7 @@ const (
 
 // MulNotDecided lists what CheckMul leaves open.
 var MulNotDecided = []string{
-	"field: in the amd64 configuration feMul / fePow2k are assembly: Mul, Square, Square2 and Pow2k are not decided there (the unused Go versions feMulGeneric / fePow2kGeneric are); ConditionalSelect / ConditionalSwap / ConditionalAssign / ConditionalNegate use b ^ (mask & (a ^ b)), the XOR of two words, which is not affine: not decided here",
+	"field: in the amd64 configuration feMul / fePow2k are assembly: they are decided by interpreting the assembly text with the transfer functions of the Go twins (asm.go; trusted: the instruction semantics written there for MOVQ, MULQ, IMUL3Q/IMULQ, ADDQ, ADCQ, SUBQ, LEAQ, SHLQ, SHRQ, ANDQ, XORQ r,r, INCQ/DECQ, JZ/JNZ/JMP); the AVX2 vector assembly of package curve is not modelled; ConditionalSelect / ConditionalSwap / ConditionalAssign / ConditionalNegate use b ^ (mask & (a ^ b)), the XOR of two words, which is not affine: not decided here",
 	"field Pow2k: one squaring is decided for k = 1, and for k = 2 with the limbs entering the second iteration replaced by fresh symbols bounded by their derived ranges (each iteration squares and re-establishes the precondition); the induction over k is argued from that",
 	"scalar Add / Sub / the final step of MontgomeryReduce: decided is sum s_i*2^(W*i) == a +/- b (+ t*L - L) modulo 2^(n*W) for ONE 0/1 selector symbol t (the borrow of the top limb) with every limb below 2^W; that this is the exact value a +/- b mod L, i.e. t = [a < b] and no wrap modulo 2^(n*W), needs the value-level bounds 0 <= a, b < L (resp. r < 2L) which limb-wise intervals cannot express: argued, not mechanised",
 	"scalar MontgomeryReduce: decided is (sum r_i*2^(W*i)) * R == sum limbs_k*2^(W*k) + N*L exactly for an integer form N (hence r*R == limbs mod L) for the operand r handed to the final Sub(r, L), r_i < 2^W for i < n-1 and r_top <= 2^W + 2^(W-7) (limb-wise input bounds only give r < 2^(n*W) + L; r_top < 2^W needs the value-level bound a*b < L*R); 'result < L' is not decided",
@@ -41,7 +41,8 @@ var MulNotDecided = []string{
 }
 
 type mulCtx struct {
-	c *checker
+	c   *checker
+	asm *AsmSet // internal/field's assembly when feMul / fePow2k have no Go body
 }
 
 func CheckMul(run *report.Run, p *load.Program, rulePrefix string) *Result {
@@ -65,6 +66,7 @@ func CheckMul(run *report.Run, p *load.Program, rulePrefix string) *Result {
 func (mc *mulCtx) world() (*World, *Memory) {
 	w := NewWorld(mc.c.p)
 	w.Carries, w.Monomials, w.QuotSyms, w.Globals = true, true, true, true
+	w.Asm = mc.asm
 	return w, newMemory()
 }
 
@@ -174,6 +176,23 @@ func (mc *mulCtx) field(be *fieldBackend) {
 	if fn := p.Func(fieldRel, "feMul"); fn == nil || len(fn.Blocks) > 0 {
 		hasGoMul = true // 32-bit back end (no feMul) or a Go feMul
 	}
+	// amd64: feMul / fePow2k are assembly; they are interpreted from the .s text
+	// (asm.go) with the transfer functions of their Go twins, standalone and
+	// inlined into Mul / Square / Square2 / Pow2k
+	hasAsmMul := false
+	if !hasGoMul {
+		c.plan(c.value, 1)
+		set, err := LoadAsm(p, fieldRel)
+		switch {
+		case err != nil:
+			c.fail(c.value, "-", fieldRel+" (assembly)", "cannot scan the assembly of "+fieldRel+": "+err.Error())
+		case set.Syms["feMul"] == nil || set.Syms["fePow2k"] == nil:
+			c.fail(c.value, "-", fieldRel+" (assembly)", "feMul / fePow2k have no Go body and no TEXT symbol in the assembly files of configuration "+p.Cfg.ID)
+		default:
+			mc.asm, hasAsmMul = set, true
+			c.ok(c.value, fieldRel+" (assembly): feMul and fePow2k are defined by TEXT symbols")
+		}
+	}
 	elem := func(w *World, mem *Memory, group string) (*Ptr, []int) {
 		cells, vars := symLimbs(w, group, be.n, be.headroom)
 		return c.newElement(w, mem, be, cells), vars
@@ -225,7 +244,13 @@ func (mc *mulCtx) field(be *fieldBackend) {
 		full := fieldRel + "." + name
 		c.plan(c.value, 1)
 		c.plan(c.rng, 1)
-		fn := c.anchor(fieldRel, name, c.value, c.rng)
+		var fn *ssa.Function
+		if mc.asm != nil && mc.asm.Syms[name] != nil && p.Func(fieldRel, name) != nil {
+			fn = p.Func(fieldRel, name)
+			full += " (amd64 assembly)"
+		} else {
+			fn = c.anchor(fieldRel, name, c.value, c.rng)
+		}
 		if fn != nil {
 			c.res.Functions++
 		}
@@ -242,7 +267,10 @@ func (mc *mulCtx) field(be *fieldBackend) {
 	if be.name == "u64" {
 		muls = append(muls, target{"feMulGeneric", true, false})
 	}
-	if hasGoMul {
+	if hasAsmMul {
+		muls = append(muls, target{"feMul", true, false})
+	}
+	if hasGoMul || hasAsmMul {
 		muls = append(muls, target{"(*Element).Mul", false, true})
 	}
 	for _, t := range muls {
@@ -272,7 +300,10 @@ func (mc *mulCtx) field(be *fieldBackend) {
 	if be.name == "u64" {
 		sqs = append(sqs, target{"fePow2kGeneric", true, false})
 	}
-	if hasGoMul {
+	if hasAsmMul {
+		sqs = append(sqs, target{"fePow2k", true, false})
+	}
+	if hasGoMul || hasAsmMul {
 		sqs = append(sqs, target{"(*Element).Pow2k", false, true}, target{"(*Element).Square", false, true}, target{"(*Element).Square2", false, true})
 	}
 	for _, t := range sqs {
@@ -308,6 +339,9 @@ func (mc *mulCtx) field(be *fieldBackend) {
 	// Pow2k k = 2: each iteration squares and re-establishes the precondition
 	if be.name == "u64" {
 		mc.fieldPow2kLoop64(be, "fePow2kGeneric")
+		if hasAsmMul {
+			mc.fieldPow2kLoopAsm(be)
+		}
 	} else if hasGoMul {
 		mc.fieldPow2kLoop32(be)
 	}
@@ -352,6 +386,7 @@ func (mc *mulCtx) field(be *fieldBackend) {
 		"identity":     "sum_k r_k*2^off_k == (sum a_i*2^off_i)*(sum b_j*2^off_j) coefficient-wise modulo p in the monomials M(a_i,b_j) (coefficient of M(a_i,b_j) == 2^(off_i+off_j) mod p, every carry / quotient symbol has a coefficient == 0 mod p); Square == a^2, Square2 == 2a^2, Mul121666 == 121666*a, Sub == a-b, Neg == -a (the bias constants vanish mod p); Add == a+b limb-wise; all words fit, result limbs <= 2^w+2^(w-7) (Square2 64-bit: twice that)",
 		"precondition": "input limbs: 64-bit < 2^54; 32-bit even limbs <= floor((2^32-1)/19) = 226050910, odd limbs <= 113025455",
 		"go_mul":       hasGoMul,
+		"asm_mul":      hasAsmMul,
 	})
 }
 
@@ -452,6 +487,89 @@ func (mc *mulCtx) fieldPow2kLoop64(be *fieldBackend, name string) {
 		w.diffModP(weighted(iter1, be.offs), productForm(w, va, va, be.offs, be.offs), "sum a'_k*2^off_k after the first iteration", "limb", iter1, be.offs))
 	c.conclude(c.value, pos, full+": second iteration",
 		w.diffModP(weighted(limbs, be.offs), productForm(w, vb, vb, be.offs, be.offs), "sum r_k*2^off_k of the result", "output limb", limbs, be.offs))
+}
+
+// fieldPow2kLoopAsm runs the assembly fePow2k with k = 2: when the backward
+// jump is taken, the limbs stored by the first iteration are replaced by fresh
+// symbols bounded by their ranges; the second iteration must square exactly
+// those (it reads what the first one wrote) and stop.
+func (mc *mulCtx) fieldPow2kLoopAsm(be *fieldBackend) {
+	c := mc.c
+	for _, al := range []fieldCase{{"", 0}, {" [out aliases a]", 1}} {
+		full := fieldRel + ".fePow2k (amd64 assembly) k=2 (one iteration, inductively)" + al.label
+		c.plan(c.value, 2)
+		c.plan(c.rng, 1)
+		fn := c.p.Func(fieldRel, "fePow2k")
+		if fn == nil {
+			c.fail(c.value, "-", full, "anchor function cannot be resolved")
+			continue
+		}
+		c.res.Functions++
+		pos := c.p.Pos(fn.Pos())
+		w, mem := mc.world()
+		cells, va := symLimbs(w, "a", be.n, be.headroom)
+		a := c.newElement(w, mem, be, cells)
+		fe := a
+		if al.fe == 0 {
+			fe = c.newElement(w, mem, be, w.outputCells("fe.inner", be.n, be.limbKind))
+		}
+		var hv []AsmHavoc
+		edges := 0
+		w.OnAsmBackEdge = func(st *asmState) {
+			edges++
+			if edges == 1 {
+				hv = st.HavocStored("a'")
+			}
+		}
+		out := w.Call(fn, []Value{fe, a, mkConst(2)}, mem)
+		fpos, rmsgs := runFailures(w, out)
+		if fpos == "-" {
+			fpos = pos
+		}
+		// the words stored by the first iteration must be exactly the limbs of the out element
+		iter1 := make([]*Int, be.n)
+		vb := make([]int, be.n)
+		ok1 := len(hv) == be.n && edges == 1
+		for _, h := range hv {
+			if h.Obj != fe.Obj || len(h.Path) != 2 || h.Path[0] != be.inner || h.Path[1] < 0 || h.Path[1] >= be.n {
+				ok1 = false
+				continue
+			}
+			iter1[h.Path[1]], vb[h.Path[1]] = h.Old, h.Var
+		}
+		for _, x := range iter1 {
+			ok1 = ok1 && x != nil
+		}
+		if out.OK() && !ok1 {
+			rmsgs = append(rmsgs, fmt.Sprintf("the loop of the squarings was not found: with k = 2 exactly one backward jump after storing the %d limbs of out is expected (%d backward jumps, %d stored words)", be.n, edges, len(hv)))
+		}
+		if ok1 {
+			for i, x := range iter1 {
+				if x.R.Lo.Sign() < 0 || x.R.Hi.Cmp(be.headroom(i)) > 0 {
+					rmsgs = append(rmsgs, fmt.Sprintf("limb %d entering the next iteration ranges over %s, outside the precondition < 2^54", i, x.R))
+				}
+			}
+		}
+		limbs, ok2 := c.elementLimbs(mem, be, fe)
+		if out.OK() && ok2 {
+			for i, l := range limbs {
+				if l.R.Lo.Sign() < 0 || l.R.Hi.Cmp(be.limbCap(i)) > 0 {
+					rmsgs = append(rmsgs, fmt.Sprintf("output limb %d ranges over %s, above the weakly reduced bound", i, l.R))
+				}
+			}
+		}
+		c.conclude(c.rng, fpos, full+": words", rmsgs)
+		if !out.OK() || !ok1 || !ok2 {
+			_, why := out.Why(w)
+			c.fail(c.value, pos, full+": first iteration", "not decided ("+why+")")
+			c.fail(c.value, pos, full+": second iteration", "not decided ("+why+")")
+			continue
+		}
+		c.conclude(c.value, pos, full+": first iteration",
+			w.diffModP(weighted(iter1, be.offs), productForm(w, va, va, be.offs, be.offs), "sum a'_k*2^off_k after the first iteration", "limb", iter1, be.offs))
+		c.conclude(c.value, pos, full+": second iteration",
+			w.diffModP(weighted(limbs, be.offs), productForm(w, vb, vb, be.offs, be.offs), "sum r_k*2^off_k of the result", "output limb", limbs, be.offs))
+	}
 }
 
 // fieldPow2kLoop32 does the same for the 32-bit Pow2k, whose iterations
